@@ -171,6 +171,7 @@ def bn_spec(
     max_cells=5000,
     connected=False,
     cap_cards=True,
+    card_pool=None,
 ):
     g = draw(dag_spec(min_nodes, max_nodes, name_kinds, max_parents, latents, connected))
     nodes = g["nodes"]
@@ -180,7 +181,7 @@ def bn_spec(
     states = {}
     cells = 1
     for i, v in enumerate(nodes):
-        k = draw(st.sampled_from([c for c in CARD_POOL if min_card <= c <= hi]))
+        k = draw(st.sampled_from(list(card_pool) if card_pool else [c for c in CARD_POOL if min_card <= c <= hi]))
         if cells * k > max_cells:
             k = max(min_card, 1)
         cells *= k
